@@ -10,11 +10,23 @@ Space I, bounded-exhaustive, four parts (fmt of a failure names the part):
                  a number, empty} x body vocabulary {token, class name, valid base64, "_type", "", every typed cell kind
                  (int float bool date datetime time duration error formula empty)}  (thorough: also both columns over the
                  marker pairs, and 3-row sheets). Results of supported mail attachments count as results too.
+                 plus the decorated texts (c05_corpus.edge_cases): a text  pre + tok [+ mid + tok'] + suf  whose decorations are
+                 sequences over DECOR = {sp nl cr tab bom nbsp zwsp nul} - the characters that normalising constructors
+                 (strip & co.) act on - placed before / after / inside / mirrored around the text, as the raw bytes of a plain
+                 file (quick: c05.txt all sequences of length <= 2, csv md json tsv length 1; thorough: txt <= 3 and <= 2 in
+                 utf-8-sig / utf-16, the others <= 2) and as the base64 text/plain body of a one-part eml (length <= 2, no cr;
+                 thorough also mbox). from_json runs every constructor a second time: a normalisation that is not idempotent
+                 on some decorated text shows as json-equal / content-equal. What the extractor's decoder made of the text is
+                 counted in the outcome ("decor:kept|stripped|bom-dropped|other"), the verdict never depends on it.
                  histories: "json-first" = to_json() on the fresh result; "read-first" = every image / attachment stream
                  is read to its end (get_bytes().read(), attachment.data.read()) BEFORE to_json().
   instance       type-directed instances: the registry is discovered reflectively; for every instantiable registered
                  dataclass the baseline instance and every instance deviating from it in <= 1 field (quick) / <= 2 fields
-                 (thorough) over the per-type domains of c05_instances.
+                 (thorough) over the per-type domains of c05_instances; every str-typed field additionally takes the
+                 decorated strings  pre:/suf:/mid:/both:<sequence over DECOR>  as single deviations (quick: pre/suf <= 2, mid/both
+                 1 symbol = 160 per field; thorough: every position <= 2 = 288 per field, and pre/suf/mid <= 3 = 1824 per field
+                 for the classes whose construction runs code of their own (__post_init__ & co., discovered reflectively));
+                 two-field deviations use the core domains plus both:sp / both:bom.
   cli            sharepoint2text.cli.main on the small generated document of every format, containers of them and 20
                  fixtures: {--json, --json-unit} x {without, with --binary} x {flag before, after the path}.
 
@@ -42,7 +54,8 @@ Oracle clauses (only what the statement says)
                     header-named keys of XlsSheet rows.
 
 Triage: minimal cases are normalised (sheet: column deletion, incidental cells -> plain token / "QUJD"; instance: earliest
-deviation label with the same marker key), so that one mechanism gives one fingerprint in both tiers and for every seed.
+deviation label with the same marker key; decorated text: symbols deleted, then replaced by the earliest symbol of DECOR that
+still fails), so that one mechanism gives one fingerprint in both tiers and for every seed.
 """
 from __future__ import annotations
 
@@ -497,7 +510,27 @@ def evaluate_corpus(fmt, case):
         if c not in seen:
             seen.add(c)
             out.append((c, m))
-    return out, "%s|%s" % (",".join(sorted({type(r).__name__ for r in results})), ",".join(sorted(seen)))
+    oc = "%s|%s" % (",".join(sorted({type(r).__name__ for r in results})), ",".join(sorted(seen)))
+    if "gen" in case and case["gen"].get("fmt") == "edge":
+        oc += "|decor:" + _decor_fate(case["gen"], results)
+    return out, oc
+
+
+def _decor_fate(g, results):
+    """what became of the decorated text in the first result (coverage only: shows that the family is not vacuous)"""
+    try:
+        text = G.edge_text(g)
+        ft = results[0].get_full_text().replace("\r\n", "\n") if results else None
+    except Exception:  # noqa
+        return "n/a"
+    text = text.replace("\r\n", "\n")
+    if ft == text:
+        return "kept"
+    if ft is not None and ft == text.strip():
+        return "stripped"
+    if ft is not None and ft.strip() == text.strip().lstrip("\ufeff").strip():
+        return "bom-dropped"
+    return "other"
 
 
 # ================================================================================================= instance part
@@ -705,6 +738,23 @@ def shrinks(case):
         return
     if case.get("hist") == "read-first":
         yield dict(case, hist="json-first")
+    if "gen" in case and case["gen"].get("fmt") == "edge":
+        g = case["gen"]
+        for k in ("pre", "mid", "suf"):
+            seq = g.get(k)
+            for i in range(len(seq or [])):
+                if k == "mid" and len(seq) == 1:
+                    continue
+                yield dict(case, gen=dict(g, **{k: seq[:i] + seq[i + 1:]}))
+        names = [n for n, _ in G.DECOR]
+        for k in ("pre", "mid", "suf"):          # an earlier symbol of the alphabet in the same place (one mechanism, one minimal case)
+            seq = g.get(k)
+            for i, x in enumerate(seq or []):
+                for y in names[:names.index(x)] if x in names else []:
+                    yield dict(case, gen=dict(g, **{k: seq[:i] + [y] + seq[i + 1:]}))
+        if g.get("enc", "utf-8") != "utf-8":
+            yield dict(case, gen=dict(g, enc="utf-8"))
+        return
     if "gen" in case:
         g = case["gen"]
         if g.get("images") and not _uses_images(g):
@@ -752,7 +802,7 @@ def embeds(small, big):
 
 
 def _core(g):
-    return {k: v for k, v in g.items() if k in ("doc", "spec", "specs", "members")}
+    return {k: v for k, v in g.items() if k in ("doc", "spec", "specs", "members", "kind", "pre", "mid", "suf", "enc")}
 
 
 def fingerprint_view(case):
@@ -784,6 +834,8 @@ def corpus_cases(tier, seed):
             out.append(("gen:" + fmt, {"gen": g, "hist": h}))
     for fmt, g in G.sheet_cases(tier, seed):
         out.append(("gen:" + fmt, {"gen": g, "hist": "json-first"}))
+    for fmt, g in G.edge_cases(tier, seed):
+        out.append(("gen:" + fmt, {"gen": g, "hist": "json-first"}))
     return out
 
 
@@ -804,6 +856,13 @@ def cli_cases(tier, seed):
     return out
 
 
+def decor_level(tier, cls=None):
+    """decoration level (c05_instances.DECOR_BOUNDS) of the decorated strings in the instance part"""
+    if tier == "quick":
+        return 1
+    return 3 if (cls is not None and I.has_ctor_code(cls)) else 2
+
+
 def instance_tasks(tier, seed):
     D = _domains(seed)
     md = 1 if tier == "quick" else 2
@@ -814,7 +873,7 @@ def instance_tasks(tier, seed):
         if not I.instantiable(cls):
             skipped.append(name)
             continue
-        n = D.count(cls, md)
+        n = D.count(cls, md, decor_level(tier, cls))
         parts = max(1, n // 1500)
         for k in range(parts):
             tasks.append(("instances", tier, seed, name, k, parts))
@@ -833,7 +892,7 @@ def _work(arg):
         _, tier, seed, name, k, parts = arg
         D = _domains(seed)
         md = 1 if tier == "quick" else 2
-        for i, case in enumerate(D.cases(D.reg[name], md)):
+        for i, case in enumerate(D.cases(D.reg[name], md, decor_level(tier, D.reg[name]))):
             if i % parts != k:
                 continue
             try:
@@ -879,7 +938,7 @@ def run(ctx):
     cli = cli_cases(ctx.tier, seed)
     tasks = list(itasks)
     heavy = [c for c in corpus if c[0] == "fixture"] + [c for c in corpus if c[0] != "fixture" and c[1]["hist"] == "read-first"] + \
-            [c for c in corpus if c[0] != "fixture" and c[1]["hist"] != "read-first" and c[1]["gen"]["fmt"] not in ("xlsx", "xls", "ods")]
+            [c for c in corpus if c[0] != "fixture" and c[1]["hist"] != "read-first" and c[1]["gen"]["fmt"] not in ("xlsx", "xls", "ods", "edge")]
     heavy_ids = {id(c) for c in heavy}
     light = [c for c in corpus if id(c) not in heavy_ids]
     for c in heavy:
@@ -928,16 +987,22 @@ def run(ctx):
             pick.append(s)
     cov = {"evaluations": ev, "distinct_nontrivial": len(outcomes), "exhaustive": True,
            "rule": "(a) every accepted fixture and one rich generated document per format x {json-first, read-first}, plus the full "
-                   "header-vocabulary x body-vocabulary product of 2-column xlsx/xls/ods sheets; (b) for every instantiable registered "
+                   "header-vocabulary x body-vocabulary product of 2-column xlsx/xls/ods sheets, plus every decorated text (all sequences "
+                   "over the 8-symbol alphabet DECOR up to the stated length, before / after / inside / around the text) as plain file and "
+                   "as mail body; (b) for every instantiable registered "
                    "dataclass (registry discovered reflectively) the baseline instance and every instance deviating in <= %d field(s) "
-                   "over the per-type domains; (c) cli.main on small generated documents, containers and %d fixtures x {--json, "
+                   "over the per-type domains, every str field also over the decorated strings (single deviations); (c) cli.main on small generated documents, containers and %d fixtures x {--json, "
                    "--json-unit} x {--binary} x {flag position}. distinct_nontrivial = distinct (result classes | failed clauses) outcomes"
                    % (1 if ctx.quick else 2, len(CLI_FIXTURES)),
            "per_part": per_part, "registry_classes": len(reg), "not_instantiable": skipped,
            "outcomes": dict(sorted(outcomes.items(), key=lambda kv: -kv[1])[:60]), "not_results": nores,
            "samples": [{"fmt": s["fmt"], "case": _clip(s["case"]), "outcome": s["outcome"]} for s in pick[:6]],
            "bounds": {"tier": ctx.tier, "instance_deviations": 1 if ctx.quick else 2, "fixtures": len(fixture_files()),
-                      "sheet_cases": len(G.sheet_cases(ctx.tier, seed)), "cli_cases": len(cli)}}
+                      "sheet_cases": len(G.sheet_cases(ctx.tier, seed)), "cli_cases": len(cli),
+                      "decor_alphabet": [n for n, _ in I.DECOR], "decor_len_instance": I.DECOR_BOUNDS[decor_level(ctx.tier)],
+                      "decor_strings_per_str_field": len(I.decor_sequences(decor_level(ctx.tier))),
+                      "decor_deep_classes": ([] if ctx.quick else sorted(n for n, c in reg.items() if I.instantiable(c) and I.has_ctor_code(c))),
+                      "decor_text_cases": _count_by_kind(G.edge_cases(ctx.tier, seed))}}
     return {"coverage": cov, "failures": fails, "harness_errors": herr,
             "assumptions": [
                 "inputs the extractors reject (password-protected / empty fixtures) produce no result and are outside the quantifier",
@@ -951,10 +1016,23 @@ def run(ctx):
                 "registered Protocol dataclasses (TableInterface, UnitMetadataInterface) cannot be instantiated and are only exercised through their subclasses",
                 "nested dataclass values are taken at their baseline / minimal / one-subclass instance: every registered class is itself a root, "
                 "and the serialiser is compositional",
+                "decorated texts as files: the text an extractor result holds is whatever the library's charset detection makes of the bytes "
+                "(short texts with U+200B / NUL are sometimes decoded as a legacy code page); the oracle compares the result with its own "
+                "round trip only, the fate of the decoration is reported as outcome class",
+                "thorough, decorated strings of length 3: only for classes with constructor code of their own (from_json re-runs constructors; "
+                "the serialiser itself treats strings by type, not by class, so lengths <= 2 on every class cover it)",
                 "NaN / infinite floats are not in the float domain (JSON has no spelling for them; the statement names the standard encoder only)",
                 "CLI: the expected value is computed from a second read_file() of the same path in the same process (relies on C06 determinism)",
                 "--json-unit shape for several results (array of arrays) is taken from the README CLI table",
             ]}
+
+
+def _count_by_kind(cases):
+    out = {}
+    for k, g in cases:
+        key = k if g.get("enc", "utf-8") == "utf-8" else "%s(%s)" % (k, g["enc"])
+        out[key] = out.get(key, 0) + 1
+    return out
 
 
 def _clip(case):
